@@ -334,6 +334,44 @@ pub fn format(report: &TaxReport) -> Result<Vec<u8>, PdfError> {
     Ok(pdf)
 }
 
+/// Verification hook: compile the report exactly as [`format`] does and return the text of
+/// every text run of every page frame, in paint order, instead of exporting PDF bytes.
+///
+/// # Errors
+/// Returns `PdfError::TypstCompilation` if the template fails to compile.
+#[cfg(feature = "verif-hooks")]
+pub fn verif_text_runs(report: &TaxReport) -> Result<Vec<String>, PdfError> {
+    use typst::layout::{Frame, FrameItem, PagedDocument};
+
+    fn walk(frame: &Frame, out: &mut Vec<String>) {
+        for (_, item) in frame.items() {
+            match item {
+                FrameItem::Group(group) => walk(&group.frame, out),
+                FrameItem::Text(text) => out.push(text.text.to_string()),
+                _ => {}
+            }
+        }
+    }
+
+    let data = build_template_data(report)?;
+
+    let engine = TypstEngine::builder()
+        .main_file(TEMPLATE)
+        .fonts([ROBOTO_REGULAR, ROBOTO_BOLD])
+        .build();
+
+    let compiled = engine.compile_with_input(data);
+    let doc: PagedDocument = compiled
+        .output
+        .map_err(|e| PdfError::TypstCompilation(e.to_string()))?;
+
+    let mut runs = Vec::new();
+    for page in &doc.pages {
+        walk(&page.frame, &mut runs);
+    }
+    Ok(runs)
+}
+
 pub struct PdfFormatter;
 
 impl Formatter for PdfFormatter {
